@@ -450,6 +450,8 @@ def campaign(chk, wname, frag, timeout, orders, kinds, stride=1, b_serve_all=Fal
                          "b_serve_all": b_serve_all})
                 if wname in TRACEABLE and white:
                     traces.append(ev)
+                if len(chk._distinct) % 200 == 0:
+                    gc.collect()
         if order != "single":
             ev, outc, probs, _, _, _ = run(chk, wname, frag=frag, timeout=timeout, close_order=order)
             chk.evaluated()
